@@ -352,9 +352,12 @@ func (x *vctx) accepts(r *rand.Rand, m *types.Vote, chain string, paths int, com
 		}
 	}
 	if paths&pWire != 0 {
-		tried++
-		if w, err := wireVote(m); err == nil && verifyEither(w, chain, x.k.addr) {
-			acc = append(acc, "VoteFromProto+Verify")
+		// what VoteFromProto/ValidateBasic refuses never reaches the signature check: not a verdict on the signature
+		if w, err := wireVote(m); err == nil {
+			tried++
+			if verifyEither(w, chain, x.k.addr) {
+				acc = append(acc, "VoteFromProto+Verify")
+			}
 		}
 	}
 	if paths&pVoteSet != 0 && m.Height != 0 {
@@ -514,6 +517,8 @@ func voteMutants(r *rand.Rand, o *types.Vote, chain string, x *vctx) []vmut {
 	add("validator_address", "validator_address:helper-keep-index", func(v *types.Vote) { v.ValidatorAddress = x.helper.addr })
 	add("validator_address", "validator_address:flipbit", func(v *types.Vote) { v.ValidatorAddress[r.Intn(20)] ^= 1 << uint(r.Intn(8)) })
 	add("validator_address", "validator_address:zero", func(v *types.Vote) { v.ValidatorAddress = common.Address{} })
+	// commit slot: VerifyCommit takes the key from the slot's position, not from the address in the entry
+	add("commit_slot", "commit_slot:other-validator", func(v *types.Vote) {})
 	// index (not signed; relevant where the verifier picks the key by index)
 	add("validator_index", "validator_index:other", func(v *types.Vote) { v.ValidatorIndex = x.idxH })
 	add("validator_index", "validator_index:out-of-range", func(v *types.Vote) { v.ValidatorIndex = 2 + uint32(r.Intn(1000)) })
@@ -578,6 +583,8 @@ func judgeVote(c *core.Case, r *rand.Rand, o *types.Vote, chain string, x *vctx,
 				run.Count("mutation_noop", 1)
 				continue
 			}
+		case "commit_slot":
+			paths, slot = pCommit, x.helper.addr // the honest vote, untouched, in another validator's slot
 		case "validator_address":
 			slot = m.v.ValidatorAddress
 		default:
@@ -590,7 +597,7 @@ func judgeVote(c *core.Case, r *rand.Rand, o *types.Vote, chain string, x *vctx,
 			// in a commit the vote is read as a precommit: applicable if that reading differs from the signed message
 			cm := m.v.Copy()
 			cm.Type = kproto.PrecommitType
-			if bytes.Equal(voteRef(cm, m.chain), oref) && m.field != "validator_address" {
+			if bytes.Equal(voteRef(cm, m.chain), oref) && m.field != "validator_address" && m.field != "commit_slot" {
 				paths &^= pCommit
 			}
 		}
@@ -618,8 +625,8 @@ func judgeVote(c *core.Case, r *rand.Rand, o *types.Vote, chain string, x *vctx,
 
 // proposalAccepts is the check consensus/state.go setProposal applies to a received
 // proposal: types.VerifySignature(proposer, Keccak256(ProposalSignBytes(chainID, proposal.ToProto())), proposal.Signature).
-func proposalAccepts(p *types.Proposal, chain string, proposer common.Address, wire bool) []string {
-	var acc []string
+func proposalAccepts(p *types.Proposal, chain string, proposer common.Address, wire bool) (acc []string, tried int) {
+	tried = 1
 	if types.VerifySignature(proposer, crypto.Keccak256(types.ProposalSignBytes(chain, p.ToProto())), p.Signature) {
 		acc = append(acc, "setProposal-check")
 	}
@@ -628,14 +635,17 @@ func proposalAccepts(p *types.Proposal, chain string, proposer common.Address, w
 		if err == nil {
 			var pb kproto.Proposal
 			if pb.Unmarshal(bz) == nil {
-				if q, err := types.ProposalFromProto(&pb); err == nil &&
-					types.VerifySignature(proposer, crypto.Keccak256(types.ProposalSignBytes(chain, q.ToProto())), q.Signature) {
-					acc = append(acc, "ProposalFromProto+setProposal-check")
+				// what ProposalFromProto/ValidateBasic refuses never reaches the signature check
+				if q, err := types.ProposalFromProto(&pb); err == nil {
+					tried++
+					if types.VerifySignature(proposer, crypto.Keccak256(types.ProposalSignBytes(chain, q.ToProto())), q.Signature) {
+						acc = append(acc, "ProposalFromProto+setProposal-check")
+					}
 				}
 			}
 		}
 	}
-	return acc
+	return
 }
 
 type pmut struct {
@@ -701,10 +711,9 @@ func judgeProposal(c *core.Case, r *rand.Rand, o *types.Proposal, chain string, 
 	} else {
 		run.Count("proposal_signbytes_equal_spec", 1)
 	}
-	acc := proposalAccepts(o, chain, k.addr, true)
-	want := 2
-	if !o.POLBlockID.IsComplete() {
-		want = 1 // ProposalFromProto refuses proposals without a complete block id
+	acc, want := proposalAccepts(o, chain, k.addr, true)
+	if want == 2 {
+		run.Count("proposal_controls_through_wire", 1)
 	}
 	if len(acc) != want {
 		c.Violation("proposal:honest-signature-rejected", fmt.Sprintf("a proposal signed by the proposer's own key is rejected (accepted by %v)", acc),
@@ -721,10 +730,10 @@ func judgeProposal(c *core.Case, r *rand.Rand, o *types.Proposal, chain string, 
 			run.Count("mutation_noop", 1)
 			continue
 		}
-		acc := proposalAccepts(m.p, m.chain, m.proposer, true)
+		acc, tried := proposalAccepts(m.p, m.chain, m.proposer, true)
 		run.Eval(1)
 		run.Count("proposal_mutants", 1)
-		run.Count("proposal_mutant_checks", 2)
+		run.Count("proposal_mutant_checks", tried)
 		run.Distinct("proposal_mutation", m.name)
 		run.Nontrivial(fmt.Sprintf("%s/%d/%s", c.Group, c.I, m.name))
 		if len(acc) > 0 {
